@@ -58,11 +58,22 @@ def lean_forbidden_scan():
     return hits
 
 
+def props_modules(pid):
+    """Lean modules that hold the property theorems of <pid>: Props/<pid>.lean and, when it exists, Props/<pid>b.lean (theorems of the
+    same namespace that need results of a property file further down the import order)."""
+    mods = [f"Bxh.Props.{pid}"]
+    if os.path.exists(os.path.join(LEAN, "Bxh", "Props", f"{pid}b.lean")):
+        mods.append(f"Bxh.Props.{pid}b")
+    return mods
+
+
 def props_theorems(pid):
-    """Names of the theorems stated in Props/<pid>.lean (the property's obligations)."""
-    p = os.path.join(LEAN, "Bxh", "Props", f"{pid}.lean")
-    src = lean_strip_comments(open(p).read())
-    names = re.findall(r"^\s*theorem\s+([A-Za-z0-9_'.]+)", src, flags=re.M)
+    """Names of the theorems stated in Props/<pid>.lean (and Props/<pid>b.lean): the property's obligations."""
+    names = []
+    for m in props_modules(pid):
+        p = os.path.join(LEAN, *m.split(".")) + ".lean"
+        src = lean_strip_comments(open(p).read())
+        names += re.findall(r"^\s*theorem\s+([A-Za-z0-9_'.]+)", src, flags=re.M)
     return names
 
 
@@ -93,7 +104,7 @@ def audit_axioms(pid, theorems):
     d = os.path.join(LEAN, "Bxh", "Audit")
     os.makedirs(d, exist_ok=True)
     p = os.path.join(d, f"{pid}.lean")
-    body = f"import Bxh.Props.{pid}\n" + "".join(f"#print axioms Bxh.Props.{pid}.{t}\n" for t in theorems)
+    body = "".join(f"import {m}\n" for m in props_modules(pid)) + "".join(f"#print axioms Bxh.Props.{pid}.{t}\n" for t in theorems)
     with open(p, "w") as f:
         f.write(body)
     rc, out = sh(["lake", "env", "lean", p], cwd=LEAN, timeout=1200)
